@@ -19,6 +19,13 @@ mod vfile;
 //#[cfg(feature = "htx")]
 mod htx;
 
+#[cfg(abyssiniandb_verif)]
+pub(crate) mod verif {
+    pub(crate) use super::htx::verif as htx;
+    pub(crate) use super::key::verif as key;
+    pub(crate) use super::val::verif as val;
+}
+
 //#[cfg(feature = "node_cache")]
 //mod nc;
 
